@@ -19,6 +19,7 @@ write-buffer high/low water marks, and receiver-side pause_reading back pressure
 import asyncio
 import collections
 import errno
+import math
 import socket
 from asyncio import base_events, transports
 
@@ -29,6 +30,10 @@ EXEC_DELAYS = (0, 1, 2, 5)
 
 class Quiescent(Exception):
     """No ready callbacks, no timers, nothing in flight: the system would wait forever."""
+
+
+class VirtualClockOverflow(Exception):
+    """The only thing left to do is to wait for a timer more than 30 000 years away (or at infinity / NaN)."""
 
 
 class Tape:
@@ -62,7 +67,15 @@ class _FakeSelector:
                 return []
             raise Quiescent()
         if timeout > 0:
+            if timeout >= base_events.MAXIMUM_SELECT_TIMEOUT and loop._scheduled:
+                # asyncio clamps the wait to one day; a virtual clock can jump straight to the next timer
+                timeout = max(timeout, loop._scheduled[0]._when - loop._vtime)
+            if not (loop._vtime + timeout < 1e12):
+                raise VirtualClockOverflow(f"next timer at {loop._vtime + timeout!r} virtual seconds")
             loop._vtime += timeout
+            # asyncio runs a timer when `when < time() + clock_resolution`; at large virtual times the float spacing
+            # exceeds the default 1 ns and a due timer would never fire (busy loop): keep the resolution above one ulp
+            loop._clock_resolution = max(1e-9, math.ulp(loop._vtime) * 4)
         return []
 
     def close(self):
